@@ -142,6 +142,9 @@ def run_driver(casefile, workdir, prop="full", shards=16):
         out = p.stdout.split("\n")
         if out and out[-1] == "":
             out.pop()
+        if len(out) > len(chunk):
+            # a verdict line was broken by a stray newline: nothing can be attributed reliably
+            out = ["FAIL:driver-output-misaligned\tDIFF:driver-output-misaligned"] * len(chunk)
         if len(out) != len(chunk):
             out = out + ["FAIL:driver-crashed rc=%s %s\tDIFF:driver-crashed" %
                          (p.returncode, p.stderr[-200:].replace("\n", " "))] * (len(chunk) - len(out))
